@@ -29,7 +29,7 @@ QVOCAB = ["NAME", "NUMBER", "STRING", "(", ")", "[", "]", "{", "}", ":", ",", ".
           "not", "lambda", "import", "from", "as", "def", "return", "yield", "await", ";", "@", ":=", "del", "NEWLINE"]
 TIERS = {
     "quick": dict(alltok=(QVOCAB, 3), cap=1200, mut_seeds=150, mut_vocab=QVOCAB[:24], stmts=60, indent=3),
-    "thorough": dict(alltok=(VOCAB[:40], 4), cap=40000, mut_seeds=2500, mut_vocab=VOCAB, stmts=1500, indent=4),
+    "thorough": dict(alltok=(VOCAB[:28], 4), cap=6000, mut_seeds=1200, mut_vocab=VOCAB[:40], stmts=600, indent=4),
 }
 SIG = {tokenize.NAME, tokenize.NUMBER, tokenize.STRING, tokenize.OP}
 
